@@ -49,22 +49,37 @@ ScalesDef == {[thr |-> ThrSeq[t], side |-> sd, rlen |-> RlenSeq[r],
 ScalesBelow == {sc \in ScalesDef : sc.side = "below"}
 
 \* invocation forms and setups (covering sets: every pair of values of two dimensions occurs)
-FormsDef == << [addr |-> "rel",      cwd |-> "imgdir", pub |-> "rel"],
-               [addr |-> "abs",      cwd |-> "imgdir", pub |-> "abs"],
-               [addr |-> "dotslash", cwd |-> "imgdir", pub |-> "otherdir"],
-               [addr |-> "rel",      cwd |-> "other",  pub |-> "rel"],
-               [addr |-> "mixed",    cwd |-> "other",  pub |-> "abs"],
-               [addr |-> "abs",      cwd |-> "other",  pub |-> "otherdir"] >>
-AltFormDef == <<5, 4, 6, 2, 1, 3>>
+\* spell: how a path is written -- "plain"; through `d/..` of a real directory; through `link/..` of a
+\* symbolic link to a directory elsewhere, with a different image of the same name at the place the
+\* spelling collapses to lexically ("-decoy") or nothing there ("-empty"); through a link to the
+\* directory; a symbolic link to the file itself; a doubled slash; an inner `/./`
+FormsDef == << [addr |-> "rel",      cwd |-> "imgdir", pub |-> "rel",      spell |-> "plain"],
+               [addr |-> "abs",      cwd |-> "imgdir", pub |-> "abs",      spell |-> "plain"],
+               [addr |-> "dotslash", cwd |-> "imgdir", pub |-> "otherdir", spell |-> "plain"],
+               [addr |-> "rel",      cwd |-> "other",  pub |-> "rel",      spell |-> "plain"],
+               [addr |-> "mixed",    cwd |-> "other",  pub |-> "abs",      spell |-> "plain"],
+               [addr |-> "abs",      cwd |-> "other",  pub |-> "otherdir", spell |-> "plain"],
+               [addr |-> "rel",      cwd |-> "imgdir", pub |-> "rel",      spell |-> "dotdot-link-decoy"],
+               [addr |-> "abs",      cwd |-> "imgdir", pub |-> "abs",      spell |-> "dotdot-link-empty"],
+               [addr |-> "rel",      cwd |-> "other",  pub |-> "rel",      spell |-> "dotdot-real"],
+               [addr |-> "dotslash", cwd |-> "imgdir", pub |-> "otherdir", spell |-> "via-link"],
+               [addr |-> "mixed",    cwd |-> "other",  pub |-> "abs",      spell |-> "file-link"],
+               [addr |-> "rel",      cwd |-> "imgdir", pub |-> "otherdir", spell |-> "slashes"],
+               [addr |-> "abs",      cwd |-> "other",  pub |-> "rel",      spell |-> "inner-dot"] >>
+AltFormDef == <<5, 4, 6, 2, 1, 3, 11, 12, 13, 7, 8, 9, 10>>
 SizeSeq == <<"small", "page_multiple", "zone_multiple", "one_below", "one_above">>
 DirSeq  == <<"flat", "samename", "mixed", "blanks">>
 SetupsDef     == {[size |-> SizeSeq[i], dirs |-> DirSeq[((i + j) % 4) + 1], form |-> j] : i \in 1..5, j \in 1..6}
+                 \cup {[size |-> SizeSeq[i], dirs |-> DirSeq[((i + j) % 4) + 1], form |-> j] : i \in 1..2, j \in 7..13}
 AuthSetupsDef == UNION {{[size |-> SizeSeq[i], dirs |-> DirSeq[((i + 2 * j) % 4) + 1], form |-> j] :
                            j \in {k \in 1..6 : (i + k) % 3 = 0}} : i \in 1..5}
-\* quick tier: every size, directory layout and form at least once (twice for signonetime)
+                 \cup {[size |-> SizeSeq[((j - 1) % 5) + 1], dirs |-> DirSeq[(j % 4) + 1], form |-> j] : j \in 7..13}
+\* quick tier: every size, directory layout and form at least once
 SetupsQuick     == {[size |-> SizeSeq[((j - 1) % 5) + 1], dirs |-> DirSeq[((j - 1) % 4) + 1],
-                     form |-> ((j - 1) % 6) + 1] : j \in 1..12}
-AuthSetupsQuick == {[size |-> SizeSeq[((j - 1) % 5) + 1], dirs |-> DirSeq[(j % 4) + 1], form |-> j] : j \in 1..6}
+                     form |-> j] : j \in 1..13}
+AuthSetupsQuick == {[size |-> SizeSeq[((j - 1) % 5) + 1], dirs |-> DirSeq[(j % 4) + 1], form |-> j] :
+                      j \in {1, 3, 5} \cup (7..13)}
+PlainSetups   == {s \in SetupsDef : s.form <= 6}
 FlatSetups    == {s \in SetupsDef : s.dirs \in {"flat", "blanks"}}
 
 \* image 3 is another file with the bytes of image 1
